@@ -303,16 +303,22 @@ def install(ex):
     wrap("numpy.ndim", np_ndim)
 
     # ---- numpy on the array embedding (index-map laws of pyvc/arr.py)
-    def order_of(v, node):
+    def order_of(v, node, path=None):
         if isinstance(v, sv.SStr) and v.py in ("C", "F"):
             return v.py
+        if isinstance(v, sv.SStr) and path is not None:
+            # symbolic order: numpy accepts 'C' / 'F' here (ValueError otherwise); case split
+            c, f = ex.const("C").e, ex.const("F").e     # (registers the two literals: distinct strings)
+            ex.safe(path, "memory-order", Or(v.e == c, v.e == f), node)
+            k = ex.choose(path, [v.e == c, v.e == f])
+            return "CF"[k]
         raise Unsupported(f"memory order {v}", node)
 
     def np_ravel(ex, path, args, kwargs, node):
         a = args[0]
         if not isinstance(a, SArr):
             return NotImplemented
-        o = order_of(kwargs.get("order") or (args[1] if len(args) > 1 else order_const("C")), node)
+        o = order_of(kwargs.get("order") or (args[1] if len(args) > 1 else order_const("C")), node, path)
         for ax in arr.ravel_axioms():
             path.assume(ax)
         return arr.ravel_arr(SArr(a.shape, a.at, a.dtype, ident=a.ident, units=a.units), o)
@@ -324,7 +330,7 @@ def install(ex):
         if not isinstance(a, SArr):
             return NotImplemented
         shp = args[1] if len(args) > 1 else kwargs.get("shape") or kwargs.get("newshape")
-        o = order_of(kwargs.get("order") or order_const("C"), node)
+        o = order_of(kwargs.get("order") or order_const("C"), node, path)
         for ax in arr.ravel_axioms():
             path.assume(ax)
         flat = arr.ravel_arr(a, o)
@@ -423,6 +429,8 @@ def install(ex):
             return SArr(base.shape, base.at, base.dtype, ident=base.ident)
         if attr == "mask" and base.mask is not None and base.units is None:
             return NOMASK if base.mask == "nomask" else base.mask
+        if attr == "ravel":
+            return sv.SPy("libfn", lambda ex, path, args, kwargs, node, base=base: np_ravel(ex, path, [base] + list(args), kwargs, node))
         if attr == "compress" and base.units is None:
             def compress(ex, path, args, kwargs, node, base=base):
                 cond = args[0]
@@ -446,6 +454,21 @@ def install(ex):
         return None
 
     ex.hooks.setdefault("setitem", []).append(arr_setitem)
+
+    def arr_subscript(ex, base, idx, path, node):
+        # rows of a 2-D array selected by a boolean vector: pts[b][k, c] = pts[sel_b(k), c]
+        if isinstance(base, SArr) and base.rank == 2 and isinstance(idx, SArr) and idx.dtype == "bool" and idx.rank == 1:
+            if idx.ident is None:
+                raise Unsupported("boolean row selection without identity", node)
+            ex.safe(path, "bool-index-length", idx.shape[0] == base.shape[0], node)    # IndexError otherwise
+            sel, _rnk, cnt = arr.sel_fns(idx.ident)
+            for ax in arr.sel_axioms(idx):
+                path.assume(ax)
+            return SArr((cnt, base.shape[1]), lambda i, base=base, sel=sel: base.at((sel(i[0]), i[1])), base.dtype,
+                        ident=f"rows[{idx.ident}]({base.ident})" if base.ident else None)
+        return None
+
+    ex.hooks.setdefault("subscript", []).append(arr_subscript)
 
     def arr_cmp(ex, op, a, b, path, node):
         # element-wise comparison of two arrays of equal shape (broadcasting is not modelled: shapes must agree)
